@@ -145,6 +145,8 @@ type task struct {
 	body      func()
 	waitCh    unsafe.Pointer // tsPolling in a plain send/receive: the channel ...
 	waitDir   int            // ... and the direction (1 receive, 2 send)
+	sel             []SelCase // tsPolling in a select: its cases
+	parkAfterSelect bool      // after the select has fired this task parks as runnable (it was the sender of a rendezvous)
 	mapRng    uint64         // stream that permutes map iteration orders (MapKeys)
 	meet      bool           // the partner of an unbuffered rendezvous has arrived: complete it with a blocking operation
 }
@@ -396,6 +398,9 @@ func choose(c int, kind int) int {
 		}
 		// nothing can run now: jump the simulated clock to the next timer or sleeper, if any
 		if !advanceToNextEvent() {
+			if FreeDaemons && patience() {
+				continue // natively running goroutines of the library may still serve a polling caller
+			}
 			return -1
 		}
 	}
@@ -520,6 +525,27 @@ func traceRec(c, kind int, n uint64, site uint32, next int) {
 		}
 	}
 	rawWrite(TraceFD, &b[0], len(b))
+}
+
+var patienceLeft = 4000
+
+// patience waits a little in REAL time (degraded mode only) and makes every polling task retry.
+//
+//go:norace
+func patience() bool {
+	polling := false
+	for i := 0; i < hiSlot; i++ {
+		if tasks[i].alive && tasks[i].state == tsPolling {
+			polling = true
+		}
+	}
+	if !polling || patienceLeft <= 0 {
+		return false
+	}
+	patienceLeft--
+	realSleep()
+	progress++
+	return true
 }
 
 //go:norace
@@ -711,6 +737,7 @@ func setup(c *RunConfig, n int) {
 	nsw, truncated, sig, nontriv, swCount = 0, false, 14695981039346656037, false, 0
 	outcome, detail = OutcomeOK, ""
 	onceCont, lockCont, preFired, nPairs = 0, 0, 0, 0
+	patienceLeft = 4000
 	clockJumps, timersFired, daemonSwitch = 0, 0, false
 	for i := HarnessTasks; i < hiSlot; i++ {
 		// goroutines the library started in earlier runs continue; their step accounting starts afresh
